@@ -164,10 +164,19 @@ pub fn scenario(ctx: &Ctx, idx: u64) -> Report {
             let want = gen::want(&mut rng);
             let use_get_peers = rng.gen_bool(0.4) || (class == "stored-info-hash" && rng.gen_bool(0.7));
             let src_v6 = rng.gen_bool(0.3);
-            let src = bed.client(src_v6, 2);
+            // the asker is a stranger, or (a fifth of the probes) one of the table's own live nodes
+            // asking under its id from its address - the answer must not depend on who asks
+            let from_table_node = if rng.gen_bool(0.2) { live.choose(&mut rng).copied() } else { None };
+            let (src, asker_id) = match from_table_node {
+                Some(h) => {
+                    report.count("wire_probes_sent_by_a_table_node");
+                    (h.1, h.0)
+                }
+                None => (bed.client(src_v6, 2), gen::rand_id(&mut rng)),
+            };
             let q = Krpc::query(
                 gen::tid(&mut rng),
-                gen::rand_id(&mut rng),
+                asker_id,
                 if use_get_peers {
                     Query::GetPeers { info_hash: target, want }
                 } else {
